@@ -65,6 +65,8 @@ func main() {
 		runC15(*out, *seed, *tier)
 	case "C10":
 		runC10(*out, *seed, *tier)
+	case "C20":
+		runC20(*out, *seed, *tier)
 	case "C04":
 		runC04(*out, *seed, *tier)
 	default:
